@@ -175,6 +175,12 @@ Definition norm_member (m : member) : member :=
   (key_of m, value_of m, filter real_prop (props_of m)).
 Definition norm (b : list member) : list member := map norm_member b.
 
+(** What String() can carry of a member: the properties with a non-empty key (a zero-valued entry is
+    not written). *)
+Definition resurvive (ps : list property) : list property := filter real_prop ps.
+Definition reser_member (m : member) : member := (key_of m, value_of m, resurvive (props_of m)).
+Definition has_zero_prop (m : member) : bool := existsb (fun p => negb (real_prop p)) (props_of m).
+
 (** ** Editing: a baggage is a value; SetMember / DeleteMember denote map
     update and removal. *)
 Definition set_spec (b b' : list member) (m : member) : Prop :=
